@@ -1,5 +1,533 @@
-import Plonk.Model.Composer
+/-
+  C07 — Circuit shape is independent of witness values; generation is total.
+
+  The gates a composer component emits (selectors, wiring), the public-input rows and their
+  count, and the number of witnesses it allocates depend only on the sequence of component calls
+  and their constant parameters, never on witness values or public-input values.
+
+  Vocabulary (defined in `Plonk/Proofs/Shape.lean`, `ShapeProg.lean`):
+    * `Composer.shape c = ⟨c.gates, c.pis.map (·.1), c.wit.size⟩`, `SameShape c₁ c₂ := c₁.shape = c₂.shape`
+    * `ShapeEq m₁ m₂` : for all states `c₁ c₂` of the same shape, `m₁` on `c₁` and `m₂` on `c₂`
+      return the same result (component results are witness *indices*) and states of the same
+      shape; `ShapeStable m := ShapeEq m m`.  `shapeEq_iff` below spells it out.
+    * `ShapeEqE` : the same for programs with early exit (`?`), "if both runs succeed".
+
+  What is proved, at full strength, for every component of `Plonk/Model/Composer.lean`:
+    * `…_value_free` : `ShapeStable (X params)` for components all of whose parameters are circuit
+      constants or wire indices; `ShapeEq (X v₁) (X v₂)` where `v` is a value parameter
+      (`appendWitness`, `appendPublic`, public value of `assertEqualConstant`, the `pi` field of a
+      constraint, the coordinates of `appendAffinePoint/appendPoint/appendPublicPoint/
+      assertEqualPublicPoint`, the eighth-point of `assertTorsionFreeGates`, the digits of
+      `appendFixedBaseSignedDigits`).
+    * the error-returning entry points: `…_error_iff` (exact decision logic), `…_error_state`
+      (state unchanged on error; for `appendFixedBaseSignedDigits` the state after the
+      canonical-scalar gates), and value-freeness on the success path.
+    * `program_shape_value_free` : any sequence of calls (register machine with early exit).
+
+  Totality.  Every function of the model is defined by structural recursion or without recursion
+  (`componentDecomposition.go`, `appendLogicComponent.go`, `componentMulPoint.go`,
+  `appendWitnesses`, `appendCustomGates`, `doublings`, `fixedAccs`, `wnaf2.go`, `powModF`); Lean
+  accepted them as total definitions (no `partial`, no opaque escape hatch), reads are `getD`, and no `panic`/`!`-indexing occurs.
+  So for any field values whatsoever (non-boolean bits, out-of-range scalars, off-curve or `Z = 0`
+  points) a component returns; `component_total` records this, and the `error_iff` lemmas say
+  exactly when the result is an error.
+
+  Findings (no hypothesis was forced beyond the ones stated in the task):
+    * `appendFixedBaseSignedDigits`: the number of rounds recorded is
+      `min digits.length FIXED_BASE_SIGNED_DIGIT_ROUNDS`, so besides the generator and digit
+      validity the shape depends on the *length* of the digit string.  `wnaf2` always returns 256
+      valid digits (`wnaf2_length`, `badDigits_wnaf2`), hence `componentMulGenerator` is
+      value-free on its success path with no extra hypothesis.
+    * `componentMulGenerator`: whether it fails with `scalarMalformed` depends on the scalar
+      *value* (`≥ r_J`); on failure the state is unchanged.  A default instance whose scalar is
+      canonical therefore compiles the same circuit as every later canonical instance; a later
+      non-canonical instance gets an error, not a different circuit.
+    * `appendPoint`/`appendPublicPoint`/`assertEqualPublicPoint`: failure depends on the value
+      `Z = 0`; state unchanged.
+-/
+import Plonk.Proofs.ShapeProg
+
 namespace Plonk.Props.C07
-open Plonk
-theorem placeholder_bounds : Generated.RANGE_MAX_BITS = 256 ∧ Generated.DECOMP_MAX_BITS = 256 := by decide
+open Plonk Plonk.Composer
+
+/-- the bounds used by the source -/
+theorem placeholder_bounds : Generated.RANGE_MAX_BITS = 256 ∧ Generated.DECOMP_MAX_BITS = 256 := by
+  decide
+
+/-! ## meaning of the vocabulary -/
+
+/-- `ShapeEq` spelled out -/
+theorem shapeEq_iff {α : Type} (m₁ m₂ : CM α) :
+    ShapeEq m₁ m₂ ↔ ∀ c₁ c₂ : Composer,
+      (c₁.gates = c₂.gates ∧ c₁.pis.map (·.1) = c₂.pis.map (·.1) ∧ c₁.wit.size = c₂.wit.size) →
+      (m₁.run c₁).1 = (m₂.run c₂).1 ∧
+      (m₁.run c₁).2.gates = (m₂.run c₂).2.gates ∧
+      (m₁.run c₁).2.pis.map (·.1) = (m₂.run c₂).2.pis.map (·.1) ∧
+      (m₁.run c₁).2.wit.size = (m₂.run c₂).2.wit.size := by
+  constructor
+  · intro h c₁ c₂ hc
+    obtain ⟨h1, h2⟩ := h c₁ c₂ (sameShape_iff.mpr hc)
+    exact ⟨h1, sameShape_iff.mp h2⟩
+  · intro h c₁ c₂ hc
+    obtain ⟨h1, h2⟩ := h c₁ c₂ (sameShape_iff.mp hc)
+    exact ⟨h1, sameShape_iff.mpr h2⟩
+
+/-! Two concrete states of the same shape with different witness values: the initialized
+    composer plus one witness (index 6) holding `5` resp. `200` (not a bit, not 4-bit). -/
+
+def c5 : Composer := ((appendWitness 5).run Composer.initialized).2
+def c200 : Composer := ((appendWitness 200).run Composer.initialized).2
+
+theorem c5_c200 : SameShape c5 c200 ∧ c5.val 6 = 5 ∧ c200.val 6 = 200 ∧ c5.wit.size = 7 := by
+  decide +kernel
+
+/-- `SameShape` discriminates: a different *constant* is a different shape -/
+example : ¬ SameShape ((appendConstant 5).run c5).2 ((appendConstant 6).run c5).2 := by
+  decide +kernel
+
+/-! ## `component_shape_value_free` family -/
+
+/-- the statement form of the task, for `range_check` -/
+theorem rangeCheck_shape {c₁ c₂ : Composer} (x bits : Nat) (h : SameShape c₁ c₂) :
+    SameShape ((rangeCheck x bits).run c₁).2 ((rangeCheck x bits).run c₂).2 :=
+  (rangeCheck_stable x bits c₁ c₂ h).2
+
+/-- non-vacuity: a 4-bit check of witness 6 holding `5` resp. `200`; the component really emits
+    rows (two gates of the range layout plus the closing row and the equality) -/
+example : SameShape ((rangeCheck 6 4).run c5).2 ((rangeCheck 6 4).run c200).2 :=
+  rangeCheck_shape 6 4 c5_c200.1
+example : ((rangeCheck 6 4).run c5).2.gates.size = c5.gates.size + 3 ∧
+    ((rangeCheck 6 4).run c5).2.wit ≠ ((rangeCheck 6 4).run c200).2.wit := by decide +kernel
+
+/-- primitives: witness allocation (any two values), gates (same constraint up to the
+    public-input value), evaluated output, `gate_add`/`gate_mul` -/
+theorem primitives_value_free :
+    (∀ v₁ v₂, ShapeEq (appendWitness v₁) (appendWitness v₂)) ∧
+    (∀ s₁ s₂ : Constraint, s₁.SameUpToPi s₂ → ShapeEq (appendCustomGate s₁) (appendCustomGate s₂)) ∧
+    (∀ s₁ s₂ : Constraint, s₁.SameUpToPi s₂ → ShapeEq (appendGate s₁) (appendGate s₂)) ∧
+    (∀ s₁ s₂ : Constraint, s₁.SameUpToPi s₂ →
+      ShapeEq (appendEvaluatedOutput s₁) (appendEvaluatedOutput s₂)) ∧
+    (∀ s₁ s₂ : Constraint, s₁.SameUpToPi s₂ → ShapeEq (gateAdd s₁) (gateAdd s₂)) ∧
+    (∀ s₁ s₂ : Constraint, s₁.SameUpToPi s₂ → ShapeEq (gateMul s₁) (gateMul s₂)) ∧
+    (∀ l₁ l₂ : List Nat, l₁.length = l₂.length →
+      ShapeEq (appendWitnesses l₁) (appendWitnesses l₂)) ∧
+    (∀ l₁ l₂ : List Constraint,
+      l₁.map (fun s => { s with pi := 0 }) = l₂.map (fun s => { s with pi := 0 }) →
+      ShapeEq (appendCustomGates l₁) (appendCustomGates l₂)) :=
+  ⟨appendWitness_shape, fun _ _ => appendCustomGate_shape, fun _ _ => appendGate_shape,
+   fun _ _ => appendEvaluatedOutput_shape, fun _ _ => gateAdd_shape, fun _ _ => gateMul_shape,
+   fun _ _ => appendWitnesses_shape, fun _ _ => appendCustomGates_shape⟩
+
+/-- `SameUpToPi` is exactly "equal except for the `pi` field" -/
+example (s : Constraint) (p : Nat) : s.SameUpToPi { s with pi := p } :=
+  Constraint.sameUpToPi_iff.mpr ⟨p, rfl⟩
+example : ¬ Constraint.SameUpToPi { ql := 1 } { ql := 2 } := by decide
+/-- the solved output of `gate_add` differs (11 vs 401), the layout does not -/
+example :
+    let s : Constraint := { ql := 2, qc := 1, a := 6 }
+    SameShape ((gateAdd s).run c5).2 ((gateAdd s).run c200).2 ∧
+    ((gateAdd s).run c5).1 = ((gateAdd s).run c200).1 ∧
+    ((gateAdd s).run c5).2.val 7 = 11 ∧ ((gateAdd s).run c200).2.val 7 = 401 := by
+  decide +kernel
+
+/-- the branch `append_evaluated_output` takes (allocate an output or not) is decided by the
+    selector `q_O` alone, never by a value -/
+theorem appendEvaluatedOutput_branch (s : Constraint) (c : Composer) :
+    ((appendEvaluatedOutput s).run c).1.isSome =
+      (s.qo == 1 % R || s.qo == R - 1 || (finv? s.qo).isSome) :=
+  appendEvaluatedOutput_isSome s c
+
+example : ((appendEvaluatedOutput { ql := 1, qo := 0, a := 6 }).run c5).1 = none ∧
+    ((appendEvaluatedOutput { ql := 1, qo := 3, a := 6 }).run c5).1 = some 7 := by
+  decide +kernel
+
+/-- equality assertions, constants, public inputs -/
+theorem equality_public_value_free :
+    (∀ a b, ShapeStable (assertEqual a b)) ∧
+    (∀ a k (p₁ p₂ : Option Nat), p₁.isSome = p₂.isSome →
+      ShapeEq (assertEqualConstant a k p₁) (assertEqualConstant a k p₂)) ∧
+    (∀ v, ShapeStable (appendConstant v)) ∧
+    (∀ v₁ v₂, ShapeEq (appendPublic v₁) (appendPublic v₂)) ∧
+    ShapeStable appendDummyGates :=
+  ⟨assertEqual_stable, fun a k _ _ => assertEqualConstant_shape a k, appendConstant_stable,
+   appendPublic_shape, appendDummyGates_stable⟩
+
+/-- two different public values: same public-input rows, different public-input values -/
+example :
+    SameShape ((appendPublic 3).run c5).2 ((appendPublic 4).run c200).2 ∧
+    ((appendPublic 3).run c5).2.pis ≠ ((appendPublic 4).run c200).2.pis ∧
+    ((appendPublic 3).run c5).2.pis.size = 1 := by decide +kernel
+
+/-- bits.rs / select.rs: every width of the decomposition -/
+theorem bits_select_value_free :
+    (∀ a, ShapeStable (componentBoolean a)) ∧
+    (∀ n scalar, ShapeStable (componentDecomposition n scalar)) ∧
+    (∀ bit a b, ShapeStable (componentSelect bit a b)) ∧
+    (∀ bit value, ShapeStable (componentSelectOne bit value)) ∧
+    (∀ bit value, ShapeStable (componentSelectZero bit value)) :=
+  ⟨componentBoolean_stable, componentDecomposition_stable, componentSelect_stable,
+   componentSelectOne_stable, componentSelectZero_stable⟩
+
+/-- a non-boolean "bit" (`5` / `200`) and a value that does not fit 3 bits: same layout, same
+    returned bit indices -/
+example :
+    SameShape ((componentDecomposition 3 6).run c5).2 ((componentDecomposition 3 6).run c200).2 ∧
+    ((componentDecomposition 3 6).run c5).1 = [7, 9, 11] ∧
+    ((componentDecomposition 3 6).run c200).1 = [7, 9, 11] ∧
+    SameShape ((componentSelect 6 0 1).run c5).2 ((componentSelect 6 0 1).run c200).2 := by
+  decide +kernel
+
+/-- range.rs: all widths, even and odd -/
+theorem range_value_free :
+    (∀ w n, ShapeStable (rangeCheckEven w n)) ∧
+    (∀ w n, ShapeStable (rangeCheck w n)) ∧
+    (∀ bits w, ShapeStable (componentRangeBits bits w)) ∧
+    (∀ pairs w, ShapeStable (componentRange pairs w)) :=
+  ⟨rangeCheckEven_stable, rangeCheck_stable, componentRangeBits_stable, componentRange_stable⟩
+
+/-- odd width 5 on in-range `5` and out-of-range `200` -/
+example : SameShape ((componentRangeBits 5 6).run c5).2 ((componentRangeBits 5 6).run c200).2 ∧
+    ((componentRangeBits 5 6).run c5).2.gates.size = c5.gates.size + 6 := by decide +kernel
+
+/-- truncate.rs -/
+theorem truncate_value_free :
+    (∀ high low n, ShapeStable (assertCanonicalTruncation high low n)) ∧
+    (∀ input low n, ShapeStable (bindTruncationSplit input low n)) ∧
+    (∀ n w, ShapeStable (componentTruncate n w)) :=
+  ⟨assertCanonicalTruncation_stable, bindTruncationSplit_stable, componentTruncate_stable⟩
+
+example : SameShape ((componentTruncate 4 6).run c5).2 ((componentTruncate 4 6).run c200).2 ∧
+    ((componentTruncate 4 6).run c5).1 = ((componentTruncate 4 6).run c200).1 :=
+  ⟨(componentTruncate_stable 4 6 c5 c200 c5_c200.1).2, (componentTruncate_stable 4 6 c5 c200 c5_c200.1).1⟩
+
+/-- logic.rs: all pair counts, AND and XOR -/
+theorem logic_value_free (pairs a b : Nat) (isXor : Bool) :
+    ShapeStable (appendLogicComponent pairs a b isXor) :=
+  appendLogicComponent_stable pairs a b isXor
+
+example :
+    SameShape ((appendLogicComponent 1 6 5 true).run c5).2
+      ((appendLogicComponent 1 6 5 true).run c200).2 ∧
+    ((appendLogicComponent 1 6 5 true).run c5).1 = ((appendLogicComponent 1 6 5 true).run c200).1 :=
+  ⟨(logic_value_free 1 6 5 true c5 c200 c5_c200.1).2, (logic_value_free 1 6 5 true c5 c200 c5_c200.1).1⟩
+
+/-- point.rs: total components.  `addPointGates` computes its sum on the host with the pole
+    fallback `edAddOrId`; `assertTorsionFreePoint` computes the eighth of the point only if it is
+    on the curve — both are value-only. -/
+theorem point_value_free :
+    (∀ p₁ p₂, ShapeEq (appendAffinePoint p₁) (appendAffinePoint p₂)) ∧
+    (∀ a b, ShapeStable (assertEqualPoint a b)) ∧
+    (∀ a b, ShapeStable (addPointGates a b)) ∧
+    (∀ point q₁ q₂, ShapeEq (assertTorsionFreeGates point q₁) (assertTorsionFreeGates point q₂)) ∧
+    (∀ point, ShapeStable (assertTorsionFreePoint point)) ∧
+    (∀ p, ShapeStable (componentNegPoint p)) ∧
+    (∀ a b, ShapeStable (componentAddPoint a b)) ∧
+    (∀ a b, ShapeStable (componentSubPoint a b)) ∧
+    (∀ bit a, ShapeStable (selectIdentityGates bit a)) ∧
+    (∀ bit a, ShapeStable (componentSelectIdentity bit a)) ∧
+    (∀ bit a b, ShapeStable (componentSelectPoint bit a b)) ∧
+    (∀ jubjub point, ShapeStable (componentMulPoint jubjub point)) :=
+  ⟨appendAffinePoint_shape, assertEqualPoint_stable, addPointGates_stable,
+   assertTorsionFreeGates_shape, assertTorsionFreePoint_stable, componentNegPoint_stable,
+   componentAddPoint_stable, componentSubPoint_stable, selectIdentityGates_stable,
+   componentSelectIdentity_stable, componentSelectPoint_stable, componentMulPoint_stable⟩
+
+/-- an off-curve "point" `(w6, w1)` = `(5, 1)` resp. `(200, 1)`: same gates for addition and for
+    the torsion check -/
+example :
+    SameShape ((addPointGates (6, 1) (6, 1)).run c5).2 ((addPointGates (6, 1) (6, 1)).run c200).2 ∧
+    onCurve (5, 1) = false := by decide +kernel
+example :
+    SameShape ((assertTorsionFreePoint (6, 1)).run c5).2 ((assertTorsionFreePoint (6, 1)).run c200).2 :=
+  (point_value_free.2.2.2.2.1 (6, 1) c5 c200 c5_c200.1).2
+
+/-- fixed_base.rs: the canonical-scalar check -/
+theorem assertCanonicalJubjubScalar_value_free (scalar : Nat) :
+    ShapeStable (assertCanonicalJubjubScalar scalar) :=
+  assertCanonicalJubjubScalar_stable scalar
+
+/-! ## error-returning entry points -/
+
+/-- `append_point`: either `.error .degenerate` with the state unchanged (exactly when `Z = 0`),
+    or the same shape change as for any other non-degenerate point -/
+theorem appendPoint_value_free (e₁ e₂ : Ext) :
+    (e₁.z = 0 → ∀ c, (appendPoint e₁).run c = (.error .degenerate, c)) ∧
+    (e₁.z ≠ 0 → e₂.z ≠ 0 → ShapeEq (appendPoint e₁) (appendPoint e₂)) ∧
+    (e₁.z ≠ 0 → ∀ c, ((appendPoint e₁).run c).1 = .ok (c.wit.size, c.wit.size + 1)) :=
+  ⟨fun h c => appendPoint_degenerate h c, appendPoint_shape, fun h c => appendPoint_ok h c⟩
+
+theorem appendPoint_error_iff (e : Ext) (c : Composer) (err : CErr) :
+    ((appendPoint e).run c).1 = .error err ↔ err = .degenerate ∧ e.z = 0 :=
+  Composer.appendPoint_error_iff e c err
+
+example : (appendPoint ⟨1, 1, 0, 1, 1⟩).run c5 = (.error .degenerate, c5) :=
+  appendPoint_degenerate rfl c5
+/-- two different off-curve points with `Z ≠ 0` -/
+example : SameShape ((appendPoint ⟨1, 1, 1, 1, 1⟩).run c5).2 ((appendPoint ⟨2, 3, 5, 0, 0⟩).run c200).2 :=
+  (appendPoint_shape (by decide) (by decide) c5 c200 c5_c200.1).2
+
+/-- `append_constant_point`: the point is a circuit constant -/
+theorem appendConstantPoint_value_free (e : Ext) : ShapeStable (appendConstantPoint e) :=
+  appendConstantPoint_stable e
+
+theorem appendConstantPoint_error_iff (e : Ext) (c : Composer) (err : CErr) :
+    ((appendConstantPoint e).run c).1 = .error err ↔
+      (err = .degenerate ∧ e.z = 0) ∨
+      (err = .notTorsionFree ∧ e.z ≠ 0 ∧ ¬(e.onCurve = true ∧ e.torsionFree = true)) :=
+  Composer.appendConstantPoint_error_iff e c err
+
+theorem appendConstantPoint_error_state (e : Ext) (c : Composer) (err : CErr)
+    (h : ((appendConstantPoint e).run c).1 = .error err) :
+    ((appendConstantPoint e).run c).2 = c :=
+  Composer.appendConstantPoint_error_state e c err h
+
+/-- all three outcomes occur: `Z = 0`; off-curve; the prime-order point `exG'` -/
+def exG' : Ext :=
+  Ext.ofAffine (0x341b2606e5f117a1413de7daf9cb0b1f257ee8e102920711b20847ff13841537, 18)
+
+example : ((appendConstantPoint ⟨1, 1, 0, 1, 1⟩).run c5).1 = .error .degenerate ∧
+    ((appendConstantPoint ⟨1, 1, 1, 1, 1⟩).run c5).1 = .error .notTorsionFree ∧
+    ((appendConstantPoint exG').run c5).1 = .ok (7, 8) := by decide +kernel
+
+/-- `append_public_point` -/
+theorem appendPublicPoint_value_free (e₁ e₂ : Ext) :
+    (e₁.z = 0 → ∀ c, (appendPublicPoint e₁).run c = (.error .degenerate, c)) ∧
+    (e₁.z ≠ 0 → e₂.z ≠ 0 → ShapeEq (appendPublicPoint e₁) (appendPublicPoint e₂)) ∧
+    (e₁.z ≠ 0 → ∀ c, ((appendPublicPoint e₁).run c).1 = .ok (c.wit.size, c.wit.size + 1)) :=
+  ⟨fun h c => appendPublicPoint_degenerate h c, appendPublicPoint_shape,
+   fun h c => appendPublicPoint_ok h c⟩
+
+theorem appendPublicPoint_error_iff (e : Ext) (c : Composer) (err : CErr) :
+    ((appendPublicPoint e).run c).1 = .error err ↔ err = .degenerate ∧ e.z = 0 :=
+  Composer.appendPublicPoint_error_iff e c err
+
+example : SameShape ((appendPublicPoint ⟨1, 1, 1, 1, 1⟩).run c5).2
+    ((appendPublicPoint ⟨2, 3, 5, 0, 0⟩).run c200).2 :=
+  (appendPublicPoint_shape (by decide) (by decide) c5 c200 c5_c200.1).2
+
+/-- `assert_equal_public_point` -/
+theorem assertEqualPublicPoint_value_free (p : Pt) (e₁ e₂ : Ext) :
+    (e₁.z = 0 → ∀ c, (assertEqualPublicPoint p e₁).run c = (.error .degenerate, c)) ∧
+    (e₁.z ≠ 0 → e₂.z ≠ 0 →
+      ShapeEq (assertEqualPublicPoint p e₁) (assertEqualPublicPoint p e₂)) ∧
+    (e₁.z ≠ 0 → ∀ c, ((assertEqualPublicPoint p e₁).run c).1 = .ok ()) :=
+  ⟨fun h c => assertEqualPublicPoint_degenerate p h c, assertEqualPublicPoint_shape p,
+   fun h c => assertEqualPublicPoint_ok p h c⟩
+
+theorem assertEqualPublicPoint_error_iff (p : Pt) (e : Ext) (c : Composer) (err : CErr) :
+    ((assertEqualPublicPoint p e).run c).1 = .error err ↔ err = .degenerate ∧ e.z = 0 :=
+  Composer.assertEqualPublicPoint_error_iff p e c err
+
+example : SameShape ((assertEqualPublicPoint (6, 1) ⟨1, 1, 1, 1, 1⟩).run c5).2
+    ((assertEqualPublicPoint (6, 1) ⟨2, 3, 5, 0, 0⟩).run c200).2 :=
+  (assertEqualPublicPoint_shape (6, 1) (by decide) (by decide) c5 c200 c5_c200.1).2
+
+/-- `append_fixed_base_signed_digits`.  The shape depends on the generator (a circuit constant),
+    on whether some digit is outside `{-1, 0, 1}` (`badDigits`), and on the effective number of
+    digits `min digits.length ROUNDS`; the digits themselves only influence values.
+    With an unsupported digit the component *is* `assertCanonicalJubjubScalar` followed by
+    `.error .unsupportedWnaf` (so the state change is the value-independent one of
+    `assertCanonicalJubjubScalar`). -/
+theorem appendFixedBaseSignedDigits_value_free (jubjub : Nat) (gen : Pt) (ds₁ ds₂ : List Int) :
+    (badDigits ds₁ = true →
+      appendFixedBaseSignedDigits jubjub gen ds₁ =
+        (do assertCanonicalJubjubScalar jubjub; pure (.error .unsupportedWnaf))) ∧
+    (badDigits ds₁ = false → badDigits ds₂ = false →
+      min ds₁.length Generated.FIXED_BASE_SIGNED_DIGIT_ROUNDS =
+        min ds₂.length Generated.FIXED_BASE_SIGNED_DIGIT_ROUNDS →
+      ShapeEq (appendFixedBaseSignedDigits jubjub gen ds₁)
+        (appendFixedBaseSignedDigits jubjub gen ds₂)) ∧
+    (badDigits ds₁ = true → badDigits ds₂ = true →
+      ShapeEq (appendFixedBaseSignedDigits jubjub gen ds₁)
+        (appendFixedBaseSignedDigits jubjub gen ds₂)) :=
+  ⟨appendFixedBaseSignedDigits_invalid jubjub gen, appendFixedBaseSignedDigits_shape jubjub gen,
+   appendFixedBaseSignedDigits_shape_invalid jubjub gen gen⟩
+
+theorem badDigits_iff (ds : List Int) :
+    badDigits ds = false ↔ ∀ d ∈ ds, d = 0 ∨ d = 1 ∨ d = -1 := badDigits_eq_false_iff ds
+
+theorem appendFixedBaseSignedDigits_error_iff (jubjub : Nat) (gen : Pt) (digits : List Int)
+    (c : Composer) (err : CErr) :
+    ((appendFixedBaseSignedDigits jubjub gen digits).run c).1 = .error err ↔
+      err = .unsupportedWnaf ∧ badDigits digits = true :=
+  Composer.appendFixedBaseSignedDigits_error_iff jubjub gen digits c err
+
+theorem appendFixedBaseSignedDigits_error_state (jubjub : Nat) (gen : Pt) (digits : List Int)
+    (c : Composer) (err : CErr)
+    (h : ((appendFixedBaseSignedDigits jubjub gen digits).run c).1 = .error err) :
+    ((appendFixedBaseSignedDigits jubjub gen digits).run c).2 =
+      ((assertCanonicalJubjubScalar jubjub).run c).2 :=
+  Composer.appendFixedBaseSignedDigits_error_state jubjub gen digits c err h
+
+/-- hypotheses satisfiable with genuinely different digit strings; a digit `2` is rejected -/
+example : badDigits [1, 0, -1] = false ∧ badDigits [-1, -1, 0] = false ∧
+    min [1, 0, -1].length Generated.FIXED_BASE_SIGNED_DIGIT_ROUNDS =
+      min [(-1 : Int), -1, 0].length Generated.FIXED_BASE_SIGNED_DIGIT_ROUNDS ∧
+    badDigits [1, 2] = true := by decide
+
+/-- `component_mul_generator`: decision logic -/
+theorem componentMulGenerator_error_iff (jubjub : Nat) (gen : Ext) (c : Composer) (err : CErr) :
+    ((componentMulGenerator jubjub gen).run c).1 = .error err ↔
+      (err = .generatorNotPrime ∧
+        ¬(gen.z ≠ 0 ∧ gen.onCurve = true ∧ gen.primeOrder = true)) ∨
+      (err = .scalarMalformed ∧
+        (gen.z ≠ 0 ∧ gen.onCurve = true ∧ gen.primeOrder = true) ∧ c.val jubjub ≥ RJ) :=
+  Composer.componentMulGenerator_error_iff jubjub gen c err
+
+theorem componentMulGenerator_error_state (jubjub : Nat) (gen : Ext) (c : Composer) (err : CErr)
+    (h : ((componentMulGenerator jubjub gen).run c).1 = .error err) :
+    ((componentMulGenerator jubjub gen).run c).2 = c :=
+  Composer.componentMulGenerator_error_state jubjub gen c err h
+
+/-- `component_mul_generator`: same generator, two states of the same shape whose scalar values
+    are both canonical — same result indices and same shape; and it succeeds exactly then -/
+theorem componentMulGenerator_value_free (jubjub : Nat) (gen : Ext) {c₁ c₂ : Composer}
+    (h : SameShape c₁ c₂) (h₁ : c₁.val jubjub < RJ) (h₂ : c₂.val jubjub < RJ) :
+    ((componentMulGenerator jubjub gen).run c₁).1 = ((componentMulGenerator jubjub gen).run c₂).1 ∧
+    SameShape ((componentMulGenerator jubjub gen).run c₁).2
+      ((componentMulGenerator jubjub gen).run c₂).2 :=
+  componentMulGenerator_shape jubjub gen h h₁ h₂
+
+theorem componentMulGenerator_ok_iff (jubjub : Nat) (gen : Ext) (c : Composer) :
+    (∃ p, ((componentMulGenerator jubjub gen).run c).1 = .ok p) ↔
+      (gen.z ≠ 0 ∧ gen.onCurve = true ∧ gen.primeOrder = true) ∧ c.val jubjub < RJ :=
+  Composer.componentMulGenerator_ok_iff jubjub gen c
+
+/-- `compute_windowed_naf(2)` always yields 256 supported digits, whatever the scalar -/
+theorem wnaf2_shape (k : Nat) : (wnaf2 k).length = 256 ∧ badDigits (wnaf2 k) = false :=
+  ⟨wnaf2_length k, badDigits_wnaf2 k⟩
+
+/-- non-vacuity: `exG'` passes the generator test, the scalars `5` and `200` are canonical, so
+    the multiplication succeeds on both states, with the same circuit; an off-curve generator and
+    a non-canonical scalar produce the two errors -/
+example : (exG'.z ≠ 0 ∧ exG'.onCurve = true ∧ exG'.primeOrder = true) ∧
+    c5.val 6 < RJ ∧ c200.val 6 < RJ := by decide +kernel
+example : SameShape ((componentMulGenerator 6 exG').run c5).2 ((componentMulGenerator 6 exG').run c200).2 :=
+  (componentMulGenerator_value_free 6 exG' c5_c200.1 (by decide +kernel) (by decide +kernel)).2
+example : ((componentMulGenerator 6 ⟨1, 1, 1, 1, 1⟩).run c5).1 = .error .generatorNotPrime :=
+  (componentMulGenerator_error_iff 6 _ c5 _).mpr (.inl ⟨rfl, by decide +kernel⟩)
+example : ((componentMulGenerator 5 exG').run c5).1 = .error .scalarMalformed :=
+  (componentMulGenerator_error_iff 5 _ c5 _).mpr (.inr ⟨rfl, by decide +kernel, by decide +kernel⟩)
+
+/-! ## totality -/
+
+/-- Generation is total: every component, on every state and for all parameter values, returns a
+    result and a state (no panic, no abort; the error paths are ordinary results).  In Lean this
+    holds by construction — all model functions are total, structurally recursive definitions —
+    so the statement is immediate for any `m`; it is recorded for the record. -/
+theorem component_total {α : Type} (m : CM α) (c : Composer) : ∃ r c', m.run c = (r, c') :=
+  ⟨(m.run c).1, (m.run c).2, rfl⟩
+
+/-- e.g. a range check of a witness index that was never allocated still returns -/
+example : ((rangeCheck 1000 7).run c5).2.gates.size = c5.gates.size + 6 := by decide +kernel
+
+/-! ## programs -/
+
+/-- Sequences of component calls.  A program is a list of steps; a step reads operand indices
+    from the register file (indices returned by earlier steps) and returns new indices, or an
+    error that stops synthesis.  If two programs are step-by-step the same calls up to value
+    parameters (`StepsRel`), then, run on states of the same shape, whenever both succeed they
+    produce the same registers and the same circuit shape.  In particular the description compiled
+    from a default instance is the one every later (successfully synthesised) instance is proved
+    against. -/
+theorem program_shape_value_free {fs gs : List Step} (h : StepsRel fs gs) (regs : List Nat)
+    {c₁ c₂ : Composer} (hc : SameShape c₁ c₂) {r₁ r₂ : List Nat}
+    (h₁ : ((runSteps fs regs).run.run c₁).1 = .ok r₁)
+    (h₂ : ((runSteps gs regs).run.run c₂).1 = .ok r₂) :
+    r₁ = r₂ ∧ SameShape ((runSteps fs regs).run.run c₁).2 ((runSteps gs regs).run.run c₂).2 :=
+  runSteps_shapeE h regs c₁ c₂ hc r₁ r₂ h₁ h₂
+
+/-- programs without error-returning steps always succeed, so the conclusion is unconditional:
+    same registers, same shape, for all value parameters -/
+theorem program_shape_value_free_total {fs gs : List Step} (h : StepsRel fs gs)
+    (tf : ∀ f ∈ fs, Step.Total f) (tg : ∀ g ∈ gs, Step.Total g) (regs : List Nat)
+    {c₁ c₂ : Composer} (hc : SameShape c₁ c₂) :
+    ∃ r, ((runSteps fs regs).run.run c₁).1 = .ok r ∧ ((runSteps gs regs).run.run c₂).1 = .ok r ∧
+      SameShape ((runSteps fs regs).run.run c₁).2 ((runSteps gs regs).run.run c₂).2 := by
+  obtain ⟨r₁, h₁⟩ := runSteps_total tf regs c₁
+  obtain ⟨r₂, h₂⟩ := runSteps_total tg regs c₂
+  obtain ⟨rfl, hs⟩ := runSteps_shapeE h regs c₁ c₂ hc r₁ r₂ h₁ h₂
+  exact ⟨r₁, h₁, h₂, hs⟩
+
+/-- non-vacuity: a two-step total program (allocate, then a 4-bit range check) with the witness
+    values `5` and `200` -/
+def exTot (w : Nat) : List Step :=
+  [fun _ => liftM (do let x ← appendWitness w; pure [x]),
+   fun regs => liftM (do rangeCheck (regs.getD 0 0) 4; pure [])]
+
+theorem exTot_total (w : Nat) : ∀ f ∈ exTot w, Step.Total f := by
+  intro f hf
+  simp only [exTot, List.mem_cons, List.not_mem_nil, or_false] at hf
+  rcases hf with rfl | rfl <;> exact Step.total_lift _
+
+example : ∃ r,
+    ((runSteps (exTot 5) []).run.run Composer.initialized).1 = .ok r ∧
+    ((runSteps (exTot 200) []).run.run Composer.initialized).1 = .ok r ∧
+    SameShape ((runSteps (exTot 5) []).run.run Composer.initialized).2
+      ((runSteps (exTot 200) []).run.run Composer.initialized).2 :=
+  program_shape_value_free_total
+    (.cons (fun _ => .lift (.bind (appendWitness_shape 5 200) fun _ => .pure _))
+      (.cons (fun _ => .lift (.bind (rangeCheck_stable _ _) fun _ => .pure _)) .nil))
+    (exTot_total 5) (exTot_total 200) [] (SameShape.refl _)
+
+/-- closure properties from which `StepsRel` is established: total components (`liftM`),
+    entry points (`ExceptT.mk`), sequencing -/
+theorem program_closure {α β : Type} :
+    (∀ a : α, ShapeEqE (pure a : CME α) (pure a)) ∧
+    (∀ m₁ m₂ : CM α, ShapeEq m₁ m₂ → ShapeEqE (liftM m₁ : CME α) (liftM m₂)) ∧
+    (∀ (m₁ m₂ : CME α) (k₁ k₂ : α → CME β), ShapeEqE m₁ m₂ → (∀ a, ShapeEqE (k₁ a) (k₂ a)) →
+      ShapeEqE (m₁ >>= k₁) (m₂ >>= k₂)) ∧
+    (∀ e₁ e₂, ShapeEqE (ExceptT.mk (appendPoint e₁)) (ExceptT.mk (appendPoint e₂))) ∧
+    (∀ e, ShapeEqE (ExceptT.mk (appendConstantPoint e)) (ExceptT.mk (appendConstantPoint e))) ∧
+    (∀ e₁ e₂, ShapeEqE (ExceptT.mk (appendPublicPoint e₁)) (ExceptT.mk (appendPublicPoint e₂))) ∧
+    (∀ p e₁ e₂, ShapeEqE (ExceptT.mk (assertEqualPublicPoint p e₁))
+      (ExceptT.mk (assertEqualPublicPoint p e₂))) ∧
+    (∀ j gen, ShapeEqE (ExceptT.mk (componentMulGenerator j gen))
+      (ExceptT.mk (componentMulGenerator j gen))) :=
+  ⟨ShapeEqE.pure, fun _ _ => ShapeEqE.lift, fun _ _ _ _ => ShapeEqE.bind, appendPoint_shapeE,
+   appendConstantPoint_shapeE, appendPublicPoint_shapeE, assertEqualPublicPoint_shapeE,
+   componentMulGenerator_shapeE⟩
+
+/-- a concrete program with value parameters `(w, p, e)`: allocate a witness `w`, a public input
+    `p`, range-check the witness to 4 bits, decompose the public input into 3 bits, append a
+    point `e`, and select between the point's coordinates with the lowest bit -/
+def exProg (w p : Nat) (e : Ext) : List Step :=
+  [ fun _ => liftM (do let x ← appendWitness w; pure [x]),
+    fun _ => liftM (do let x ← appendPublic p; pure [x]),
+    fun regs => liftM (do rangeCheck (regs.getD 0 0) 4; pure []),
+    fun regs => liftM (componentDecomposition 3 (regs.getD 1 0)),
+    fun _ => do let q ← (ExceptT.mk (appendPoint e) : CME Pt); pure [q.1, q.2],
+    fun regs => liftM (do
+      let x ← componentSelect (regs.getD 2 0) (regs.getD 5 0) (regs.getD 6 0); pure [x]) ]
+
+theorem exProg_rel (w₁ p₁ w₂ p₂ : Nat) (e₁ e₂ : Ext) :
+    StepsRel (exProg w₁ p₁ e₁) (exProg w₂ p₂ e₂) := by
+  refine .cons (fun _ => .lift ?_) <| .cons (fun _ => .lift ?_) <| .cons (fun _ => .lift ?_) <|
+    .cons (fun _ => .lift ?_) <| .cons (fun _ => ?_) <| .cons (fun _ => .lift ?_) .nil
+  · exact .bind (appendWitness_shape _ _) fun _ => .pure _
+  · exact .bind (appendPublic_shape _ _) fun _ => .pure _
+  · exact .bind (rangeCheck_stable _ _) fun _ => .pure _
+  · exact componentDecomposition_stable _ _
+  · exact .bind (appendPoint_shapeE _ _) fun _ => .pure _
+  · exact .bind (componentSelect_stable _ _ _) fun _ => .pure _
+
+/-- non-vacuity: the program run with `(5, 3, off-curve point)` and with `(200, 77, another
+    point)` — a non-4-bit witness, a different public input — succeeds both times, with the same
+    registers and hence (by the theorem) the same shape; with a `Z = 0` point it stops with an
+    error instead -/
+example :
+    ((runSteps (exProg 5 3 ⟨1, 1, 1, 1, 1⟩) []).run.run Composer.initialized).1
+      = .ok [6, 7, 10, 12, 14, 16, 17, 21] ∧
+    ((runSteps (exProg 200 77 ⟨2, 3, 5, 0, 0⟩) []).run.run Composer.initialized).1
+      = .ok [6, 7, 10, 12, 14, 16, 17, 21] ∧
+    ((runSteps (exProg 200 77 ⟨2, 3, 0, 0, 0⟩) []).run.run Composer.initialized).1
+      = .error .degenerate := by decide +kernel
+
+example : SameShape
+    ((runSteps (exProg 5 3 ⟨1, 1, 1, 1, 1⟩) []).run.run Composer.initialized).2
+    ((runSteps (exProg 200 77 ⟨2, 3, 5, 0, 0⟩) []).run.run Composer.initialized).2 :=
+  (program_shape_value_free (exProg_rel 5 3 200 77 _ _) [] (SameShape.refl _)
+    (r₁ := [6, 7, 10, 12, 14, 16, 17, 21]) (r₂ := [6, 7, 10, 12, 14, 16, 17, 21])
+    (by decide +kernel) (by decide +kernel)).2
+
 end Plonk.Props.C07
